@@ -165,7 +165,18 @@ func c12Writer(r *eng.Run) {
 	level := r.T.Range(sim.LCfg, -2, 9)
 	msg := drawFlateMsg(r)
 	dst := NewPipe(r, nil)
-	w := wsflate.NewWriter(dst, flateCtor(level))
+	ctor := flateCtor(level)
+	if r.T.Chance(sim.LCfg, 1, 4) {
+		// Another DEFLATE implementation, or a layer in front of one, hands
+		// its output over in pieces of its own liking: the same bytes, other
+		// Write boundaries (1..9 bytes, now and then everything).
+		ctor = func(d io.Writer) wsflate.Compressor {
+			f, _ := flate.NewWriter(&rechunker{dst: d, r: r}, level)
+			return f
+		}
+		r.Probe("compressor_output_rechunked")
+	}
+	w := wsflate.NewWriter(dst, ctor)
 	var hist []string
 	pos := 0
 	steps := 1 + r.T.Int(sim.LHist, 6)
@@ -183,6 +194,21 @@ func c12Writer(r *eng.Run) {
 			k := r.T.Int(sim.LSeg, len(msg)-pos+1)
 			if r.T.Bool(sim.LSeg) {
 				k = minInt(k, 1+r.T.Int(sim.LSeg, 9)) // small writes straddle the 4-byte window
+			}
+			if k > 0 && r.T.Chance(sim.LHist, 1, 5) {
+				// The bytes come from a reader (a relay: io.Copy(flateWriter,
+				// messageReader)); the reader hands them out in pieces and now
+				// and then answers (0, nil), as wsutil.Reader does behind a
+				// control frame between two fragments.
+				src := &zeroReadSrc{data: msg[pos : pos+k], r: r}
+				n, err := io.Copy(w, src)
+				hist = append(hist, fmt.Sprintf("io.Copy(%d, %d zero reads)", k, src.zeros))
+				if err != nil || int(n) != k {
+					r.Failf("unexpected_error", "io.Copy(wsflate.Writer, %d bytes) = %d, %v (history %v)", k, n, err, hist)
+				}
+				r.Probe("flate_writer_fed_through_io_copy")
+				pos += k
+				continue
 			}
 			n, err := w.Write(msg[pos : pos+k])
 			hist = append(hist, fmt.Sprintf("Write(%d)", k))
@@ -271,6 +297,51 @@ func c12Writer(r *eng.Run) {
 	if r.T.Chance(sim.LHist, 1, 4) {
 		c12TwoWriters(r)
 	}
+}
+
+// rechunker passes what it is given on in pieces chosen by the tape.
+type rechunker struct {
+	dst io.Writer
+	r   *eng.Run
+}
+
+func (c *rechunker) Write(p []byte) (int, error) {
+	done := 0
+	for done < len(p) {
+		k := len(p) - done
+		if !c.r.T.Chance(sim.LSeg, 1, 6) {
+			k = minInt(k, 1+c.r.T.Int(sim.LSeg, 9))
+		}
+		n, err := c.dst.Write(p[done : done+k])
+		done += n
+		if err != nil {
+			return done, err
+		}
+	}
+	return done, nil
+}
+
+// zeroReadSrc hands its data out in small pieces and sometimes answers
+// (0, nil) in between.
+type zeroReadSrc struct {
+	data  []byte
+	pos   int
+	zeros int
+	r     *eng.Run
+}
+
+func (z *zeroReadSrc) Read(p []byte) (int, error) {
+	if z.pos >= len(z.data) {
+		return 0, io.EOF
+	}
+	if z.zeros < 4 && z.r.T.Chance(sim.LSeg, 1, 3) {
+		z.zeros++
+		return 0, nil
+	}
+	k := minInt(len(p), minInt(len(z.data)-z.pos, 1+z.r.T.Int(sim.LSeg, 600)))
+	copy(p, z.data[z.pos:z.pos+k])
+	z.pos += k
+	return k, nil
 }
 
 // c12TwoWriters: two long-lived Writers built on the default helper's
